@@ -95,6 +95,11 @@ def definitional(rng):
     out.append(("manydefs", head + "".join("let f%d x = x\n\n" % i for i in range(3000))))
     out.append(("manytvars", head + "let f () =\n  " + "\n  ".join("let v%d = slice.New<int> ()" % i for i in range(150)) + "\n  1\n"))
     out.append(("deepnest", head + "let f (a:int) =\n" + "".join("  " * (i + 1) + "if a > %d then\n" % i for i in range(300)) + "  " * 301 + "1\n" + "".join("  " * (300 - i) + "else\n" + "  " * (301 - i) + "0\n" for i in range(300))))
+    # the designated probes of the known finding deep-nesting-stack-exhaustion (DESIGN section 6, #29): 100,000 levels
+    N = 100000
+    out.append(("finding:deepnest:expression parentheses", head + "let f () =\n  " + "(" * N + "1" + ")" * N + "\n"))
+    out.append(("finding:deepnest:type parentheses", head + "let f (a:" + "(" * N + "int" + ")" * N + ") =\n  1\n"))
+    out.append(("finding:deepnest:generic type arguments", head + "type Box<T> = {V: T}\n\nlet f (a:" + "Box<" * N + "int" + ">" * N + ") =\n  1\n"))
     out.append(("longstring", head + "let f () =\n  \"" + "x" * 200000 + "\"\n"))
     out.append(("longident", head + "let " + "f" * 100000 + " () =\n  1\n"))
     out.append(("binary", bytes(range(256)).decode("latin1")))
@@ -378,6 +383,13 @@ def run(ctx):
                  sample={"input": o["tag"], "exit": o["code"], "announced": len(o["ann"]), "gen": o["present"]} if i % 1511 == 7 else None)
         key = "accepted" if o["code"] == 0 else ("diagnostic" if o["code"] in (1, 2) and not o["bad"] else "other")
         cls[key] = cls.get(key, 0) + 1
+        if (i + 1) not in acc and fam == "finding" and o["bad"] and ctx.is_known("deep-nesting-stack-exhaustion"):
+            if "deep-nesting-stack-exhaustion" not in ctx.known:
+                ctx.known_finding("deep-nesting-stack-exhaustion", "a definition nested 100,000 levels deep (parentheses in an expression or a type, generic type "
+                                  "arguments) kills fc with a Go stack overflow (fatal error, exit 2) instead of a diagnostic: %s" % o["tag"].split(":", 2)[2])
+            continue
+        if fam == "finding" and (i + 1) in acc:
+            ctx.note("the known finding deep-nesting-stack-exhaustion does not reproduce for: %s (exit %d)" % (o["tag"], o["code"]))
         if (i + 1) not in acc:
             src = ""
             if fam != "faults":
